@@ -80,15 +80,15 @@ PROPS = {
     'C12': dict(corr=[corr('C12', 'exact', forbid=['E:protocol', 'E:eval-select-differ'])]),
     'C13': dict(corr=[corr('C13', 'set')]),
     'C04': dict(corr=[corr('C04', 'set', forbid=['E:history', 'E:mismatch', 'E:crash'], model_kinds=['hist'])]),
-    'C06': dict(corr=[corr('C06', 'exact', forbid=['E:contract', 'E:compile-panicked'])]),
+    'C06': dict(corr=[corr('C06', 'exact', forbid=['E:contract', 'E:compile-panicked'], mismatch_is_correspondence=True)]),
     'C07': dict(corr=[corr('C07', 'set', forbid=['E:crash', 'E:complaint'])]),
     'C08': dict(corr=[corr('C08', 'exact', guard=guard_c08)]),
     'C09': dict(corr=[corr('C09', 'exact', forbid=['E:crash'])]),
     'C10': dict(corr=[corr('C10', 'exact')]),
     'C14': dict(corr=[corr('C14', 'set')]),
-    'C15': dict(corr=[corr('C15', 'class', forbid=['E:crash', 'E:budget', 'X:', 'I:', 'Z:'])]),
+    'C15': dict(corr=[corr('C15', 'class', forbid=['E:crash', 'E:budget', 'X:', 'I:', 'Z:'], mismatch_is_correspondence=True)]),
     'C16': dict(corr=[corr('C16', 'exact', forbid=['E:mismatch', 'E:crash', 'E:complaint'], model_kinds=['cache'])]),
-    'C17': dict(corr=[corr('C17', 'exact', percase=percase_expect)]),
+    'C17': dict(corr=[corr('C17', 'exact', percase=percase_expect, mismatch_is_correspondence=True)]),
 }
 
 # ---------------------------------------------------------------- known findings
